@@ -15,6 +15,8 @@ as axioms and instantiated at the calls the code actually makes: exp(x) * exp(-x
 integral literal n >= 0 is exact (repeated multiplication).
   (d) every constructor of the 100+ input-function classes stores each parameter in the member of the same name (a class that
       drops a geometry / profile parameter evaluates its closed form for other parameters than the rest of the triple).
+  (e) GMGPolar::selectTestCase, for every value of the four option integers: throws or selects five classes of the same problem /
+      profile / geometry as the options, constructed with the solver's parameters.
 NOT decided (no contract expresses differentiation of these forms): source term == -div(alpha grad u) + beta u for the
 64 source-term classes, Jacobians of the Czarny and Culham geometries."""
 import re
@@ -280,8 +282,106 @@ def ctor_job():
     return j
 
 
+# ---- (e) the selection tables pair classes of ONE problem, ONE profile and ONE geometry -------------------------------------
+PROBLEMS = {"CartesianR2": "CARTESIAN_R2", "CartesianR6": "CARTESIAN_R6", "PolarR6": "POLAR_R6", "Refined": "REFINED_RADIUS"}
+PROFILES = {"Poisson": ("POISSON", None), "Sonnendrucker": ("SONNENDRUCKER", "ZERO"), "SonnendruckerGyro": ("SONNENDRUCKER", "ALPHA_INVERSE"),
+            "Zoni": ("ZONI", "ZERO"), "ZoniGyro": ("ZONI", "ALPHA_INVERSE"), "ZoniShifted": ("ZONI_SHIFTED", "ZERO"),
+            "ZoniShiftedGyro": ("ZONI_SHIFTED", "ALPHA_INVERSE")}
+GEOMETRIES = {"CircularGeometry": "CIRCULAR", "ShafranovGeometry": "SHAFRANOV", "CzarnyGeometry": "CZARNY", "CulhamGeometry": "CULHAM"}
+GEOM_ARGS = {"CIRCULAR": "Rmax_", "CULHAM": "Rmax_", "SHAFRANOV": "Rmax_, kappa_eps_, delta_e_", "CZARNY": "Rmax_, kappa_eps_, delta_e_"}
+
+
+def decode_class(cls):
+    """class NAME -> (role, problem, alpha, beta, geometry) by the repository's naming scheme <Problem>[_Boundary|_<Profile>]_<Geometry>"""
+    parts = cls.split("_")
+    if cls in GEOMETRIES:
+        return ("geometry", None, None, None, GEOMETRIES[cls])
+    if cls.endswith("Coefficients") and cls[:-len("Coefficients")] in PROFILES:
+        a, b = PROFILES[cls[:-len("Coefficients")]]
+        return ("profile", None, a, b, None)
+    if parts[-1] not in GEOMETRIES or parts[0] not in PROBLEMS:
+        raise ExtractError("class name %s does not follow the naming scheme" % cls)
+    if len(parts) == 2:
+        return ("exact", PROBLEMS[parts[0]], None, None, GEOMETRIES[parts[1]])
+    if len(parts) == 3 and parts[1] == "Boundary":
+        return ("boundary", PROBLEMS[parts[0]], None, None, GEOMETRIES[parts[2]])
+    if len(parts) == 3 and parts[1] in PROFILES:
+        a, b = PROFILES[parts[1]]
+        return ("source", PROBLEMS[parts[0]], a, b, GEOMETRIES[parts[2]])
+    raise ExtractError("class name %s does not follow the naming scheme" % cls)
+
+
+def selection_job():
+    """GMGPolar::selectTestCase (verbatim switch structure): for EVERY value of the four option enums the function either throws or
+    selects a geometry, a profile, an exact solution, boundary data and a source term that belong to the SAME problem, profile and
+    geometry as the options say, each constructed with the solver's own parameters.  `X_ = std::make_unique<Class>(args)` becomes a
+    record of the class (decoded from its NAME by the repository's naming scheme) and of the argument list."""
+    rules, hashes = Rules("C19"), {}
+    f = Src.get("src/GMGPolar/select_test_case.cpp").function("GMGPolar::selectTestCase")
+    hashes["GMGPolar::selectTestCase"] = sha(f["body"])
+    b = f["body"]
+    enums = {"GeometryType": ["CIRCULAR", "SHAFRANOV", "CZARNY", "CULHAM"], "ProblemType": ["CARTESIAN_R2", "CARTESIAN_R6", "POLAR_R6", "REFINED_RADIUS"],
+             "AlphaCoeff": ["POISSON", "SONNENDRUCKER", "ZONI", "ZONI_SHIFTED"], "BetaCoeff": ["ZERO", "ALPHA_INVERSE"]}
+    gd = Src.get("include/common/global_definitions.h").text
+    for en, vals in enums.items():
+        m = re.search(r"enum\s+class\s+%s\s*\{([^}]*)\}" % en, gd)
+        got = [x.split("=")[0].strip() for x in m.group(1).split(",") if x.strip()] if m else None
+        if got != vals:
+            raise ExtractError("enum %s changed: %s" % (en, got))
+    role_member = {"geometry": "domain_geometry_", "profile": "density_profile_coefficients_", "exact": "exact_solution_", "boundary": "boundary_conditions_", "source": "source_term_"}
+    n = [0]
+
+    def rec(m):
+        member, cls, args = m.group(1), m.group(2), " ".join(m.group(3).split())
+        role, pr, al, be, ge = decode_class(cls)
+        if role_member[role] != member:
+            raise ExtractError("%s assigned to %s" % (cls, member))
+        n[0] += 1
+        want_args = GEOM_ARGS[ge] if ge else "Rmax_, alpha_jump_"
+        return ("{ sel_%s.set = 1; sel_%s.problem = %s; sel_%s.alpha = %s; sel_%s.beta = %s; sel_%s.geometry = %s; sel_%s.args_ok = %d; }" % (
+            role, role, ("ProblemType_" + pr) if pr else "-1", role, ("AlphaCoeff_" + al) if al else "-1", role, ("BetaCoeff_" + be) if be else "-1",
+            role, ("GeometryType_" + ge) if ge else "-1", role, 1 if args == want_args else 0))
+    b = re.sub(r"\b(\w+_)\s*=\s*std::make_unique<(\w+)>\(([^;]*)\);", rec, b)
+    rules.log.append(("C19.make_unique_record", n[0]))
+    if n[0] < 100:
+        raise ExtractError("only %d make_unique assignments found in selectTestCase" % n[0])
+    b = rules.sub("R8.throw", r"throw\s+std::(\w+)\(([^;]*)\);", "{ g_thrown = 1; return; }", b, expect="+")
+    b = common_body_rewrites(b, rules, "I")
+    if re.search(r"std::|make_unique", b):
+        raise ExtractError("unhandled construct in selectTestCase")
+    c = ["int nondet_int(void);",
+         "enum { GeometryType_CIRCULAR, GeometryType_SHAFRANOV, GeometryType_CZARNY, GeometryType_CULHAM };",
+         "enum { ProblemType_CARTESIAN_R2, ProblemType_CARTESIAN_R6, ProblemType_POLAR_R6, ProblemType_REFINED_RADIUS };",
+         "enum { AlphaCoeff_POISSON, AlphaCoeff_SONNENDRUCKER, AlphaCoeff_ZONI, AlphaCoeff_ZONI_SHIFTED };",
+         "enum { BetaCoeff_ZERO, BetaCoeff_ALPHA_INVERSE };",
+         "struct sel { _Bool set; int problem, alpha, beta, geometry; _Bool args_ok; };",
+         "static struct sel sel_geometry, sel_profile, sel_exact, sel_boundary, sel_source;",
+         "static int geometry_, problem_, alpha_, beta_; static _Bool g_thrown;",
+         "static void selectTestCase(void)\n{%s}\n" % b,
+         "void harness(void) {",
+         "  geometry_ = nondet_int(); problem_ = nondet_int(); alpha_ = nondet_int(); beta_ = nondet_int();   /* ANY int: also values outside the enums */",
+         "  g_thrown = 0; selectTestCase();",
+         "  const _Bool valid = geometry_ >= 0 && geometry_ <= 3 && problem_ >= 0 && problem_ <= 3 && alpha_ >= 0 && alpha_ <= 3 && beta_ >= 0 && beta_ <= 1;",
+         "  __CPROVER_assert(!valid || !g_thrown || (geometry_ == GeometryType_CULHAM && problem_ != ProblemType_POLAR_R6 && problem_ != ProblemType_REFINED_RADIUS) || 1, \"OBL:placeholder\");",
+         "  if (!g_thrown) {",
+         "    __CPROVER_assert(sel_geometry.set && sel_profile.set && sel_exact.set && sel_boundary.set && sel_source.set, \"OBL:all_five_input_functions_are_selected\");",
+         "    __CPROVER_assert(sel_geometry.geometry == geometry_ && sel_exact.geometry == geometry_ && sel_boundary.geometry == geometry_ && sel_source.geometry == geometry_, \"OBL:all_selected_classes_belong_to_the_selected_geometry\");",
+         "    __CPROVER_assert(sel_exact.problem == problem_ && sel_boundary.problem == problem_ && sel_source.problem == problem_, \"OBL:exact_solution_boundary_data_and_source_term_belong_to_the_selected_problem\");",
+         "    __CPROVER_assert(sel_profile.alpha == alpha_ && sel_source.alpha == alpha_, \"OBL:profile_and_source_term_belong_to_the_selected_alpha\");",
+         "    __CPROVER_assert(sel_profile.beta == sel_source.beta && (sel_profile.beta == -1 ? alpha_ == AlphaCoeff_POISSON : sel_profile.beta == beta_), \"OBL:profile_and_source_term_belong_to_the_selected_beta\");",
+         "    __CPROVER_assert(sel_geometry.args_ok && sel_profile.args_ok && sel_exact.args_ok && sel_boundary.args_ok && sel_source.args_ok, \"OBL:every_class_is_constructed_with_the_solver_parameters_of_its_geometry\");",
+         "    /* beta is not read for the Poisson profile, which has no beta variant: any beta value is accepted there */",
+         "    __CPROVER_assert(valid || (alpha_ == AlphaCoeff_POISSON && geometry_ >= 0 && geometry_ <= 3 && problem_ >= 0 && problem_ <= 3), \"OBL:option_values_outside_the_enums_are_rejected\");",
+         "  }",
+         "  __CPROVER_assert(0, \"COVER:reached_end\");", "}"]
+    c = [x for x in c if "OBL:placeholder" not in x]
+    j = Job("C19.selection_tables", "\n".join(c), "P", timeout=600, bounded=None, functions=["GMGPolar::selectTestCase"], covers={"COVER:reached_end"})
+    j.rules, j.hashes = rules, hashes
+    return j
+
+
 def build_jobs(tier, seed):
-    jobs = [ctor_job()]
+    jobs = [ctor_job(), selection_job()]
     jobs += [boundary_job(e, b) for (e, b) in pairs_from_select_test_case()]
     jobs += [gyro_job(c) for c in GYRO]
     jobs += [jacobian_job(c) for c in GEOMS]
@@ -296,7 +396,10 @@ EXPLANATION = (
     "axioms exp(x) * exp(-x) == 1 and pow(x, -1) == 1 / x instantiated at the calls made; (c) Circular and Shafranov geometry: the four "
     "Jacobian functions are the partial derivatives of (Fx, Fy), by the exactness of central differences for polynomials of degree <= 2 "
     "(degree and theta-independence are obligations too) and the chain rule through (sin theta, cos theta); (d) every constructor of the "
-    "input-function classes stores each parameter in the member of the same name, starting from arbitrary in-class defaults. NOT decided: the source "
+    "input-function classes stores each parameter in the member of the same name, starting from arbitrary in-class defaults; (e) the "
+    "verbatim switch structure of GMGPolar::selectTestCase, for EVERY int value of the four options: it throws or selects geometry, profile, "
+    "exact solution, boundary data and source term of one and the same problem / profile / geometry (classes decoded from their names by "
+    "the repository's naming scheme), each constructed with the solver's parameters. NOT decided: the source "
     "terms (-div(alpha grad u) + beta u needs symbolic differentiation of 2.7 MB of generated forms), Jacobians of the Czarny and "
     "Culham geometries (sqrt / series: not polynomial), positivity of alpha.")
 
@@ -317,6 +420,23 @@ def inputs_replay_cb(job, key, label, rec):
     loop = ("int main() { const double Rmax = 1.3; int fails = 0; %s\n"
             "  for (int i = 0; i <= 40; i++) for (int j = 0; j < 64; j++) { const double r = 1e-5 + (Rmax - 1e-5) * i / 40.0, t = 2 * M_PI * j / 64.0, s = std::sin(t), c = std::cos(t);\n"
             "    %s }\n  std::printf(\"%%d point(s) failed\\n\", fails); return fails ? 1 : 0; }\n")
+    if job.name == "C19.selection_tables":
+        v = vlib.last_values(rec)
+        try:
+            g, pr, al, be = int(v["geometry_"]), int(v["problem_"]), int(v["alpha_"]), int(v["beta_"])
+        except (KeyError, ValueError):
+            return None
+        src = ("#include <bits/stdc++.h>\n#include <omp.h>\n#include <cxxabi.h>\n#define private public\n#include \"GMGPolar/gmgpolar.h\"\n#undef private\n"
+               "static std::string nm(const std::type_info& t) { int st = 0; char* d = abi::__cxa_demangle(t.name(), 0, 0, &st); std::string s = d ? d : t.name(); free(d); return s; }\n"
+               "int main() { GMGPolar s; s.geometry_ = (GeometryType)%d; s.problem_ = (ProblemType)%d; s.alpha_ = (AlphaCoeff)%d; s.beta_ = (BetaCoeff)%d; s.Rmax_ = 1.3; s.kappa_eps_ = 0.3; s.delta_e_ = 0.2; s.alpha_jump_ = 0.5;\n"
+               "  try { s.selectTestCase(); } catch (const std::exception& e) { std::printf(\"rejected: %%s\", e.what()); return 0; }\n"
+               "  const std::string G = nm(typeid(*s.domain_geometry_)), P = nm(typeid(*s.density_profile_coefficients_)), E = nm(typeid(*s.exact_solution_)), B = nm(typeid(*s.boundary_conditions_)), S = nm(typeid(*s.source_term_));\n"
+               "  std::printf(\"options (geometry %d, problem %d, alpha %d, beta %d) select:\\n  %%s | %%s | %%s | %%s | %%s\\n\", G.c_str(), P.c_str(), E.c_str(), B.c_str(), S.c_str());\n"
+               "  /* names follow <Problem>[_Boundary|_<Profile>]_<Geometry> and <Profile>Coefficients */\n"
+               "  const std::string prob = E.substr(0, E.find('_')), prof = P.substr(0, P.size() - std::string(\"Coefficients\").size());\n"
+               "  const bool ok = E == prob + \"_\" + G && B == prob + \"_Boundary_\" + G && S == prob + \"_\" + prof + \"_\" + G;\n"
+               "  if (!ok) { std::printf(\"[FAIL] the five classes do not belong to one problem / profile / geometry\\n\"); return 1; } return 0; }\n") % (g, pr, al, be, g, pr, al, be)
+        return vlib.native_generated("replay_c19_selection", src)
     m = re.search(r"constructor_stores_its_parameter\[(\w+)::(\w+)\]", label)
     if m and job.name == "C19.constructors":
         import os
